@@ -109,6 +109,10 @@ Definition ref_hashes (t : tx_ops) : list sid :=
 Definition no_mixed_supply (t : tx_ops) : bool :=
   forallb (fun s => negb (memN s (ref_hashes t))) (inline_hashes t).
 
+(* collateral inputs are locked by keys or Byron addresses (the ledger rejects script-locked collateral) *)
+Definition collateral_plain (t : tx_ops) : bool :=
+  forallb (fun op => match op with InAdd _ (ONative _) | InAdd _ (OPlutus _) => false | _ => true end) (t_collateral t).
+
 Definition countN (x : N) (l : list N) : N := N.of_nat (count_occ N.eq_dec l x).
 
 (* what a built transaction shows (the implementation's, or the model's) *)
@@ -213,7 +217,7 @@ Definition judge (t : tx_ops) (o : obs) : verdict :=
     let consistent := consistent_owners (t_inputs t) && consistent_owners (t_collateral t) in
     let size_ok := size_clause o in
     let avail_ok := scripts_available t (o_emitted o) in
-    let once_ok := scripts_not_twice t (o_emitted o) in
+    let once_ok := scripts_not_twice t (o_emitted o) || negb (collateral_plain t) in
     if size_ok && avail_ok && once_ok then Holds
     else if negb consistent then Fails 1
     else if size_ok && avail_ok && negb (no_mixed_supply t) then Fails 2
